@@ -69,3 +69,16 @@ Proof.
     by (unfold subsetcard_tab; rewrite number_fst; now apply (bip_wf_NoDup adj R)).
   apply (sel_inj a b (subsetcard_tab adj) Hnd H (x, v) Hx).
 Qed.
+
+Corollary subsetcard_sat_iff_exists adj R eq : bip_wf adj R = true ->
+  ((exists a, irs_hold a (subsetcard_ir adj R eq) = true) <->
+   exists obj, subsetcard_labelling adj R eq (filter obj (bip_index adj))).
+Proof.
+  intros Hwf. split.
+  - intros [a Ha]. apply subsetcard_T1 in Ha. exists (fun x => existsb (pair_eqb x) (subsetcard_sel a adj)).
+    assert (NoDup (map fst (subsetcard_tab adj))) as Hnd
+      by (unfold subsetcard_tab; rewrite number_fst; now apply (bip_wf_NoDup adj R)).
+    pose proof (sel_as_filter pair_eqb a (subsetcard_tab adj) pair_eqb_spec Hnd) as E.
+    unfold subsetcard_tab in E at 3. rewrite number_fst in E. unfold subsetcard_sel in *. now rewrite <- E.
+  - intros [obj Hb]. destruct (subsetcard_T2 adj R eq obj Hb) as [a [Ha _]]. eauto.
+Qed.
